@@ -82,7 +82,7 @@ func worldNatHole(w *World) {
 	tcpMux := w.KnobBool("tcp_mux", 50)
 	scfg := map[string]any{
 		"bindAddr": "10.0.0.1", "bindPort": 7000,
-		"auth":      map[string]any{"token": token},
+		"auth":            map[string]any{"token": token},
 		"transport":       map[string]any{"tcpMux": tcpMux, "heartbeatTimeout": -1},
 		"userConnTimeout": 3,
 	}
